@@ -55,22 +55,81 @@ def check_obligations(ctx):
         ctx.proof["broken"].append({"theorem": "GemVerif.Props.C17.kauri_gain_denominators",
                                     "reason": f"the regenerated gain formulas divide by {sorted(found ^ EXPECTED_DENOMINATORS)} "
                                               "which the definedness theorem does not cover (or no longer needs)"})
-    # the guards the theorems rely on are still in the sources
-    repo = core.REPO
-    needles = [("gemclus/gemini/_fdivergences.py", "np.clip(y_pred, self.epsilon, 1 - self.epsilon)", 4),
-               ("gemclus/gemini/_geomdistances.py", "np.clip(y_pred, a_min=self.epsilon, a_max=1 - self.epsilon)", 2),
-               ("gemclus/gemini/_geomdistances.py", "np.maximum(", 2),
-               ("gemclus/gemini/_geomdistances.py", "(delta + delta_mask)", 1),
-               ("gemclus/gemini/_geomdistances.py", "(delta + np.eye(len(delta)))", 1),
-               ("gemclus/sparse/_prox_grad.py", "np.where(W_norms == 0, 1, W_norms)", 1)]
-    missing = []
-    for f, needle, cnt in needles:
-        if open(os.path.join(repo, f)).read().count(needle) < cnt:
-            missing.append(f"{f}: `{needle}` x{cnt}")
-    ctx.extra["source_guards_checked"] = len(needles)
+    # the guards the theorems rely on are still in the sources.
+    #   * f-divergences + MMD `evaluate` (np.clip of the predictions, np.maximum under the square roots, `delta + delta_mask`,
+    #     `delta + np.eye(len(delta))`) and `_prox_grad.py` (`np.where(W_norms == 0, 1, W_norms)`): the sources are TRANSLATED
+    #     (translator/geminis.py, prox.py) and the companion files Props/C01Gen.lean / C05Gen.lean, re-checked by `do_prove`
+    #     on the regenerated definitions, prove them equal to the guarded hand models the definedness theorems speak about
+    #     (`clipP`, `mmdDeltaOva` / `mmdDeltaOvo`, `mmdGrad`, `linearProxRow`): however the guards are spelled.
+    #   * WassersteinGEMINI.evaluate has no translator: its guard is searched in the syntax tree (any spelling of the call).
+    missing = wasserstein_guards(core.REPO)
+    ctx.extra["source_guards_checked"] = {"by_equality_theorem": ["C01Gen (KL, TV, Hellinger, chi2, MMD)", "C05Gen (_prox_grad.py)"],
+                                          "by_syntax_tree": ["WassersteinGEMINI.evaluate: np.clip(y_pred, self.epsilon, 1 - self.epsilon)"]}
     if missing:
-        ctx.proof["broken"].append({"theorem": "GemVerif.Props.C17.*_defined",
+        ctx.proof["broken"].append({"theorem": "GemVerif.Props.C17.wasserstein_defined",
                                     "reason": "guards assumed by the definedness theorems are gone from the source: " + "; ".join(missing)})
+
+
+def wasserstein_guards(repo):
+    """the statement `<name> = np.clip(y_pred, self.epsilon, 1 - self.epsilon)` (bounds positional or as `a_min=` / `a_max=`, any
+    layout) is in WassersteinGEMINI.evaluate, at the top level of its body (not under a condition or in a loop); returns the
+    list of what is missing.  (Like the text search it replaces, it does not follow the uses of the clipped value.)"""
+    import ast
+    rel = "gemclus/gemini/_geomdistances.py"
+    try:
+        tree = ast.parse(open(os.path.join(repo, rel)).read())
+    except (OSError, SyntaxError) as e:
+        return [f"{rel}: {type(e).__name__}"]
+    nps = {a.asname or "numpy" for n in tree.body if isinstance(n, ast.Import) for a in n.names if a.name == "numpy"}
+    cls = next((n for n in tree.body if isinstance(n, ast.ClassDef) and n.name == "WassersteinGEMINI"), None)
+    fn = next((f for f in (cls.body if cls else []) if isinstance(f, ast.FunctionDef) and f.name == "evaluate"), None)
+    if fn is None:
+        return [f"{rel}: WassersteinGEMINI.evaluate not found"]
+    if len(fn.args.args) < 2:
+        return [f"{rel}: WassersteinGEMINI.evaluate has no prediction argument"]
+    pred = fn.args.args[1].arg
+    for st in fn.body:
+        if not (isinstance(st, ast.Assign) and isinstance(st.value, ast.Call)):
+            continue
+        c = st.value
+        f = c.func
+        if not (isinstance(f, ast.Attribute) and f.attr == "clip" and isinstance(f.value, ast.Name) and f.value.id in nps):
+            continue
+        kw = {k.arg: k.value for k in c.keywords}
+        args = list(c.args)
+        if len(args) == 3 and not kw:
+            x, lo, hi = args
+        elif len(args) == 2 and set(kw) == {"a_max"}:
+            x, lo, hi = args[0], args[1], kw["a_max"]
+        elif len(args) == 1 and set(kw) == {"a_min", "a_max"} and len(c.keywords) == 2:
+            x, lo, hi = args[0], kw["a_min"], kw["a_max"]
+        else:
+            continue
+        if isinstance(x, ast.Name) and x.id == pred and ast.unparse(lo) == "self.epsilon" and ast.unparse(hi) == "1 - self.epsilon":
+            return []
+    return [f"{rel}: WassersteinGEMINI.evaluate no longer clips `{pred}` to [self.epsilon, 1 - self.epsilon] with np.clip at the "
+            "top level of its body"]
+
+
+def regen_companions(ctx):
+    """Gen/Geminis.lean and Gen/Prox.lean follow the current source before the theorems (C17 + the companions C01Gen, C05Gen) are
+    re-checked; a source the translators refuse is a broken tie (as in C01 / C05)"""
+    from . import c01, c05
+    units, n, same, failures = [], 0, True, []
+    for mod in (c01, c05):
+        ctx.translation = {}
+        ctx.extra.pop("translation_failure", None)
+        mod.regen(ctx)
+        tr = ctx.translation or {}
+        units += tr.get("units", [])
+        n += tr.get("regenerated", 0)
+        same = same and tr.get("identical_to_committed", True)
+        if ctx.extra.get("translation_failure"):
+            failures.append(ctx.extra["translation_failure"])
+    ctx.translation = {"units": units, "regenerated": n, "identical_to_committed": same}
+    ctx.extra.pop("translation_failure", None)
+    if failures:
+        ctx.extra["translation_failure"] = "; ".join(failures)
 
 
 # ------------------------------------------------------------------ part A: GEMINI evaluate on degenerate predictions
@@ -425,6 +484,7 @@ def run(ctx):
                 "finiteness monitor on every optimiser step; non-trivial = every case (all are degenerate by construction); "
                 "distinct = distinct (estimator, family, parameters, data)")
     ctx.assumptions.append("IEEE overflow/underflow cannot be proved in Lean (Float is opaque to the kernel): exhibited by this sweep only — partial")
+    regen_companions(ctx)
     ctx.do_prove()
     check_obligations(ctx)
     rs = np.random.RandomState(ctx.seed * 3571 + 17)
